@@ -79,7 +79,7 @@ CORPUS = os.path.join(core.REPO, "rasn-compiler-tests", "tests", "modules")
 MAX_ISOLATED = {"quick": 24, "thorough": 96}
 
 
-def drive_and_validate(run, sets, cfgs, pats, per_set, shards, corpus_stride=6, isolated=24):
+def drive_and_validate(run, sets, cfgs, pats, per_set, shards, corpus_stride=6, isolated=24, named=()):
     ws = run.path("crate")
     shutil.rmtree(ws, ignore_errors=True)
     main = os.path.join(ws, "main")
@@ -94,9 +94,11 @@ def drive_and_validate(run, sets, cfgs, pats, per_set, shards, corpus_stride=6, 
     core.write_ndjson(paths["sets"], sets)
     core.write_ndjson(paths["cfgs"], cfgs)
     core.write_ndjson(paths["patterns"], pats)
+    named_p = run.path("named.ndjson")
+    core.write_ndjson(named_p, list(named))
     plan_p = run.path("plan.json")
     core.vharness(["c01", "--sets", paths["sets"], "--cfgs", paths["cfgs"], "--patterns", paths["patterns"], "--per-set", str(per_set),
-                   "--crate", main, "--plan", plan_p, "--corpus", CORPUS, "--corpus-stride", str(corpus_stride)], threads=12)
+                   "--crate", main, "--plan", plan_p, "--corpus", CORPUS, "--corpus-stride", str(corpus_stride), "--named", named_p], threads=12)
     plan = json.load(open(plan_p))
     known = [k for k in core.load_known() if k["property"] == "C01" and k["status"] == "known" and "signature" in k]
     sigs = [(k["deviation"], re.compile(k["signature"]["error"]), re.compile(k["signature"]["item"])) for k in known]
@@ -220,15 +222,23 @@ def check(tier):
     t = TIERS[tier]
     cfgs, pats = c19.model(run, t["maxalts"])
     sets = c02.generate(run, tier, **t["sim"])
+    # imported names: every name shape (also the ones that look like a class reference) defined in one module, imported and used in another
+    nc_cfg = run.path("MC_NestChains_imported.cfg")
+    open(nc_cfg, "w").write("SPECIFICATION Spec\nCONSTANT MaxChain = 1\nINVARIANTS EmitImported\nCHECK_DEADLOCK FALSE\n")
+    nc = core.tlc("mc/MC_NestChains.tla", nc_cfg, workers=1, timeout=600, xmx="4g")
+    run.add_tlc(nc, "imported name shapes x outer kind (MC_NestChains EmitImported)")
+    named = nc.printed("CASE")
+    if len(named) != 36:
+        raise ToolError(f"expected 36 imported-name tables, got {len(named)}")
     run.case_of = lambda ev: {"cfg": ev.get("cfg"), "input": ev.get("input"), "asn": ev.get("asn")}
-    events = drive_and_validate(run, sets, cfgs, pats, t["per_set"], shards=2 if tier == "quick" else 8, corpus_stride=t["stride"], isolated=MAX_ISOLATED[tier])
+    events = drive_and_validate(run, sets, cfgs, pats, t["per_set"], shards=2 if tier == "quick" else 8, corpus_stride=t["stride"], isolated=MAX_ISOLATED[tier], named=named)
     checked = [e for e in events if e["file"] and e["submitted"]]
     run.cov["not_submitted_shape_of_a_rustc_stopping_finding"] = len([e for e in events if e["file"] and not e["submitted"]])
     run.cov["evaluations"] = len(events)
     run.cov["type_checked"] = len(checked)
     run.cov["types_type_checked"] = sum(e["types"] for e in checked)
     run.cov["skipped_with_warnings_or_err"] = len([e for e in events if e["status"] != "ok"])
-    run.cov["by_input"] = {k: len([e for e in checked if e["input"] == k]) for k in ("generated", "patterns", "widths", "corpus")}
+    run.cov["by_input"] = {k: len([e for e in checked if e["input"] == k]) for k in ("generated", "patterns", "widths", "corpus", "imported-names")}
     run.cov["distinct_nontrivial"] = len({(json.dumps(e["cfg"], sort_keys=True), e["asn"]) for e in checked})
     run.cov["exhaustive"] = False
     run.cov["rule"] = ("module sets from Notation.tla (TLC simulation), the CHOICE payload pattern module and an integer width boundary module are "
